@@ -31,7 +31,8 @@ class ModbusSim(PeerBase):
             self.lose_tail = 0
             return self.send(s, resp[:lt], self.delay, n, 1)      # (the rest of this answer is lost on the way)
         xd = getattr(self, "exc_delay", 0.0)
-        if xd and ((resp[0:2] == b"\xaa\x55" and len(resp) > 3 and resp[3] & 0x80) or (resp[0:2] != b"\xaa\x55" and len(resp) > 7 and resp[7] & 0x80)):
+        is_mbap = len(resp) > 7 and resp[2:4] == b"\x00\x00"         # (an RTU answer has a non-zero function code in byte 3)
+        if xd and ((not is_mbap and resp[0:2] == b"\xaa\x55" and len(resp) > 3 and resp[3] & 0x80) or (is_mbap and resp[7] & 0x80)):
             return self.send(s, resp, self.delay + xd, n)       # firmware that is slow to refuse (exception answers come late)
         fr = getattr(self, "frag", None)
         if fr and len(resp) > fr[0]:
@@ -51,7 +52,7 @@ class ModbusSim(PeerBase):
             self.send(s, bytes((11 * i + n) & 0xFF for i in range(17)), 0, n)
             return True
         if f[0] == "junk":          # a datagram / segment of exactly f[1] bytes, starting like a real header
-            head = (b"\xaa\x55\x7f\xc0\x01\x86\x20" if frame[0:2] == b"\xaa\x55" and kind != "tcp" and len(frame) > 8 and frame[4] in (1, 2, 3)
+            head = (b"\xaa\x55\x7f\xc0\x01\x86\x20" if frame[0:4] == b"\xaa\x55\xc0\x7f" and kind != "tcp" and len(frame) > 8 and frame[4] in (1, 2, 3)
                     else b"\xaa\x55\xf7\x03\x04\x00\x01")
             if kind == "tcp":
                 head = frame[0:7] + b"\x03\x04"
@@ -98,7 +99,7 @@ class ModbusSim(PeerBase):
 
     # -- protocol --------------------------------------------------------------------------------------
     def on_request(self, s, kind, frame, n):
-        if self.fault is not None and not (frame[0:2] == b"\xaa\x55" and isinstance(self.fault, tuple) and self.fault[0] == "exc"):
+        if self.fault is not None and not (frame[0:4] == b"\xaa\x55\xc0\x7f" and isinstance(self.fault, tuple) and self.fault[0] == "exc"):
             if self.faulty(s, kind, frame, n):
                 return
         try:
@@ -219,7 +220,7 @@ class Aa55Sim(ModbusSim):
                 self.regs.update({base: 0x3000, base + 1: 0x3000, base + 2: 0x0064, base + 3: 0x0000})
 
     def on_request(self, s, kind, frame, n):
-        if frame[0:2] != b"\xaa\x55":
+        if frame[0:4] != b"\xaa\x55\xc0\x7f":
             return super().on_request(s, kind, frame, n)
         if self.fault is not None and not (isinstance(self.fault, tuple) and self.fault[0] == "exc"):
             if self.faulty(s, kind, frame, n):
